@@ -269,7 +269,8 @@ def gen_model_spec(rng: random.Random, *, allow_conv: bool = True,
         n_lin = n_reg
     nd = kind == 'tok' or (kind == 'mlp' and len(inp['shape']) == 2)
     for i in range(n_lin):
-        out = rng.randint(2, max_dim)
+        # (a single output unit - scalar regression head, 1x1 G factor)
+        out = 1 if zoo and rng.random() < 0.07 else rng.randint(2, max_dim)
         layers.append(deco({'t': 'linear', 'in': feat, 'out': out,
                             'bias': rng.random() < 0.7}))
         feat = out
